@@ -147,7 +147,7 @@ class TraitModel:
             if g.deprecated is not None:
                 vals["deprecated"] = int(g.deprecated)
             sub = self.level(g, rg.level, gpath)
-            st = ["std::is_same<::sbepp::group_traits<%s>::dimension_type_tag, %s>::value" % (gtag, self.tag("types::" + (g.dim or "groupSizeEncoding"))),
+            st = ["std::is_same<::sbepp::group_traits<%s>::dimension_type_tag, %s>::value" % (gtag, self.tag("types::" + self.s.type_by_name(g.dim or "groupSizeEncoding").name)),
                   "std::is_same<::sbepp::traits_tag_t<::sbepp::group_traits<%s>::value_type<char>>, %s>::value" % (gtag, gtag),
                   "std::is_same<::sbepp::traits_tag_t<::sbepp::group_traits<%s>::entry_type<char>>, %s>::value" % (gtag, gtag)] + sub
             self.ents.append(("group", gtag, gpath, vals, st))
@@ -158,7 +158,7 @@ class TraitModel:
             vals = {"name": d.name, "id": int(d.id), "description": d.desc or "", "since_version": int(d.since or 0)}
             if d.deprecated is not None:
                 vals["deprecated"] = int(d.deprecated)
-            st = ["std::is_same<::sbepp::data_traits<%s>::length_type_tag, %s>::value" % (dtag, self.tag("types::" + d.type + "::length"))]
+            st = ["std::is_same<::sbepp::data_traits<%s>::length_type_tag, %s>::value" % (dtag, self.tag("types::" + self.s.type_by_name(d.type).name + "::length"))]
             self.ents.append(("data", dtag, dpath, vals, st))
         owner = "message" if path.count("::") == 1 else "group"
         me = self.tag(path)
@@ -171,12 +171,26 @@ class TraitModel:
         stag = "%s::schema" % self.ns
         vals = {"package": s.package, "id": int(s.id), "version": int(s.version), "semantic_version": s.sem_version or "",
                 "byte_order": 1 if s.big else 0, "description": s.desc or ""}
-        st = ["std::is_same<::sbepp::schema_traits<%s>::header_type_tag, %s>::value" % (stag, self.tag("types::" + s.header_name())),
+        st = ["std::is_same<::sbepp::schema_traits<%s>::header_type_tag, %s>::value" % (stag, self.tag("types::" + s.type_by_name(s.header_name()).name)),
               "std::is_same<::sbepp::schema_traits<%s>::message_tags, ::sbepp::type_list<%s>>::value"
               % (stag, ", ".join(self.tag("messages::" + m.name) for m in s.msgs))]
         self.ents.append(("schema", stag, "schema", vals, st))
         for t in s.types:
             self.type_ent(t, "types::" + t.name, None)
+        # the built-in types are their own tags (what value_type_tag of a field with a primitive type name leads to)
+        for prim in PRIMS:
+            for opt in (False, True):
+                tag = "::sbepp::%s%s_t" % (prim, "_opt" if opt else "")
+                mn, mx, nl = default_range(prim)
+                vals = {"name": prim, "description": "", "presence": PRES["optional" if opt else "required"], "min_value": mn,
+                        "max_value": mx, "length": 1, "semantic_type": "", "since_version": 0}
+                if opt:
+                    vals["null_value"] = nl
+                st = ["std::is_same<::sbepp::type_traits<%s>::primitive_type, %s>::value" % (tag, CXX_PRIM[prim]),
+                      "std::is_same<::sbepp::type_traits<%s>::value_type, %s>::value" % (tag, tag),
+                      "std::is_same<::sbepp::traits_tag_t<%s>, %s>::value" % (tag, tag),
+                      "std::is_same<%s::value_type, %s>::value" % (tag, CXX_PRIM[prim])]
+                self.ents.append(("type", tag, "builtin::%s%s_t" % (prim, "_opt" if opt else ""), vals, st))
         rms = self.r.messages()
         for m, rm in zip(s.msgs, rms):
             path = "messages::" + m.name
